@@ -1274,6 +1274,15 @@ func (d *drv) hookEngine() {
 			d.installs++
 			d.tr.Emit(vt.Ev{"ev": "install", "old": in.OldID, "new": in.NewID, "levels": lv, "tabs": tabs, "nadd": len(in.Added), "ndel": len(in.Deleted)})
 		},
+		Trace: func(_ uintptr, ev string, a []int64) {
+			switch ev {
+			case "s:acq", "s:rel", "tx:publish-begin":
+				d.tr.Emit(vt.Ev{"ev": "eng", "h": ev, "seq": a[0]})
+			case "w:publish-begin":
+				// logged before the sequence number is advanced: an upper bound for anything read from it later
+				d.tr.Emit(vt.Ev{"ev": "eng", "h": ev, "seq": a[0] + a[1]})
+			}
+		},
 		Compaction: func(c *leveldb.VerifCompactionInfo) {
 			in0, in1 := c.Inputs[0], c.Inputs[1]
 			if in0 == nil {
@@ -1282,7 +1291,7 @@ func (d *drv) hookEngine() {
 			if in1 == nil {
 				in1 = []int64{}
 			}
-			d.tr.Emit(vt.Ev{"ev": "compaction", "vid": c.VersionID, "level": c.SourceLevel, "in0": in0, "in1": in1, "trivial": b2i(c.Trivial), "typ": c.Typ})
+			d.tr.Emit(vt.Ev{"ev": "compaction", "vid": c.VersionID, "level": c.SourceLevel, "in0": in0, "in1": in1, "trivial": b2i(c.Trivial), "typ": c.Typ, "minseq": c.MinSeq})
 		},
 		Ref: func(_ uintptr, kind string, vid int64, files [][]int64, added, deleted []int64) {
 			if kind == "ref" || kind == "rel" {
